@@ -46,6 +46,15 @@ Check (C35_contract_purge_everything :
   forall s l,
     (forall p, In p (ms_log s) -> fst p <= l_index l) -> ms_log_state (ms_step s (OPurge l)) = (Some l, Some l)).
 Print Assumptions C35_contract_purge_everything.
+Check (C35_example_purge_everything :
+  let l := {| l_term := 1; l_node := 1; l_index := 2 |} in
+  let s := ms_run [OAppend [ {| e_id := {| l_term := 0; l_node := 1; l_index := 0 |}; e_pl := PBlank |};
+                             {| e_id := {| l_term := 1; l_node := 1; l_index := 1 |}; e_pl := PBlank |};
+                             {| e_id := l; e_pl := PBlank |} ]] mstore0 in
+  (forall p, In p (ms_log s) -> fst p <= l_index l) /\ ms_log s <> [] /\
+  ms_log_state (ms_step s (OPurge l)) = (Some l, Some l) /\
+  rs_log_state (rs_step (rs_run [OAppend (map snd (ms_log s))] rstore0) (OPurge l)) = (Some l, Some l)).
+Print Assumptions C35_example_purge_everything.
 Check (C35_contract_range :
   forall lo hi l e,
     In e (mem_range lo hi l) <-> exists i, In (i, e) l /\ in_range lo hi i = true).
